@@ -336,13 +336,16 @@ class Parser:
                     continue
                 path.append(self.eat()[1])
             p = '::'.join(path)
-            if self.at('{') and not nostruct and path[-1][:1].isupper() and self.peek(1)[0] == 'id' and self.at(':', 2):
+            if self.at('{') and not nostruct and path[-1][:1].isupper() and self.peek(1)[0] == 'id' and (self.at(':', 2) or self.at(',', 2)):
                 self.eat('{')
                 fs = []
                 while not self.at('}'):
                     f = self.eat()[1]
-                    self.eat(':')
-                    fs.append((f, self.expr()))
+                    if self.at(':'):
+                        self.eat(':')
+                        fs.append((f, self.expr()))
+                    else:
+                        fs.append((f, ('path', f)))        # field init shorthand
                     if self.at(','):
                         self.eat(',')
                 self.eat('}')
@@ -533,6 +536,15 @@ class Sym:
     def bad(self, what):
         raise Untranslatable(what)
 
+    def local_int_const(self, name):
+        """`const NAME: u32|u64 = <literal>;` in the file being translated"""
+        try:
+            src = open(os.path.join(self.repo, self.cfg['file'])).read()
+        except (OSError, TypeError):
+            return None
+        m = re.search(r'\bconst\s+%s\s*:\s*u(?:8|16|32|64)\s*=\s*([0-9][0-9_]*)\s*(?:u(?:8|16|32|64))?\s*;' % re.escape(name), src)
+        return int(m.group(1).replace('_', '')) if m else None
+
     def extarg(self, comps):
         if self.cfg['ext_add'].startswith('Gen.Formulas.'):
             return ' '.join(comps)               # the translated formula takes the eight coordinates
@@ -609,6 +621,8 @@ class Sym:
                     return ('(isNeg %s)' % a, 'bool')
                 if name == 'is_nonnegative':
                     return ('(!isNeg %s)' % a, 'bool')
+                if name == 'is_zero':
+                    return ('(%s == 0)' % a, 'bool')
                 if name in ('clone', 'into'):
                     return (a, t)
             if t == 'resfq' and name == 'map_err' and len(args) == 1 and args[0][0] == 'closure':
@@ -633,6 +647,10 @@ class Sym:
                 return ('0' if f == 'Fq::zero' else '1', 'fq')
             if f in ('Fq::from', 'Fq::from_le_limbs') and len(args) == 1 and args[0][0] == 'num':
                 return (str(args[0][1]), 'fq')
+            if f == 'Fq::from' and len(args) == 1 and args[0][0] == 'path':
+                n = self.local_int_const(args[0][1])
+                if n is not None:
+                    return (str(n), 'fq')
             if f in ('Fq::sqrt_ratio_zeta', 'Fq::non_arkworks_sqrt_ratio_zeta') and len(args) == 2:
                 (a, ta), (b, tb) = self.ev(args[0], env), self.ev(args[1], env)
                 if ta == tb == 'fq':
@@ -679,6 +697,10 @@ class Sym:
                 a, t = self.ev(e[2][0][1], env)
                 if t == 'ext':
                     return (a, 'ext')
+            if e[1] in ('Element', 'Self') and sorted(f for f, _ in e[2]) == ['t', 'x', 'y', 'z'] and self.cfg.get('new_order') == 'xyzt':
+                vs = {f: self.ev(x, env) for f, x in e[2]}
+                if all(t == 'fq' for _, t in vs.values()):
+                    return (tuple(vs[c][0] for c in 'xyzt'), 'ext')
             raise Untranslatable('struct literal %s' % e[1])
         if k == 'try':
             a, t = self.ev(e[1], env)
@@ -1184,9 +1206,9 @@ class SarkSym(Sym):
             if t == 'fq' and name == 'is_zero' and not av:
                 return ('(%s == 0)' % a, 'bool')
             if t == 'fq' and name == 'pow_le_limbs' and [x[1] for x in av] == ['limbs']:
-                return ('(powLeLimbs q %s %s)' % (a, av[0][0]), 'fq')      # the loop is the hand-written fold (correspondence)
+                return ('(min_pow_le_limbs %s %s)' % (a, av[0][0]), 'fq')  # the translated loop (proved equal to `powLeLimbs q`)
             if t == 'fq' and name == 'our_sqrt' and not av:
-                return ('(ourSqrt %s)' % a, 'fq')                          # constant-time Tonelli-Shanks loop: hand-written
+                return ('(min_our_sqrt %s)' % a, 'fq')                     # the translated loop (proved equal to `ourSqrt`)
             if t == 'fq' and name == 'pow' and [x[1] for x in av] in (['int'], ['u64']):
                 return ('(powMod %s %s q)' % (a, av[0][0]), 'fq')
             if t in ('int', 'u64') and name == 'pow' and len(av) == 1 and av[0][1] in ('int', 'u64'):
@@ -1278,7 +1300,14 @@ class LoopSym:
         if k == 'path':
             if e[1] in env:
                 return env[e[1]]
-            raise Untranslatable('name %s in the ladder body' % e[1])
+            if e[1] in ('Self::ONE', 'Fq::ONE'):
+                return ('1', 'fq')
+            m = re.fullmatch(r'(Fq|Self)::([A-Z0-9_]+)', e[1])
+            if m and m.group(2).endswith('_LIMBS'):
+                return ('Gen.fields_fq.Fq.%s.nats' % m.group(2), 'limbs')
+            if m:
+                return ('(fqLit Gen.fields_fq.Fq.%s)' % m.group(2), 'fq')
+            raise Untranslatable('name %s in the loop body' % e[1])
         if k == 'un':
             a, t = self.ev(e[2], env)
             if e[1] in ('&', '*'):
@@ -1298,6 +1327,8 @@ class LoopSym:
                     return ('(%s %s %s)' % (a, op, b), 'bool')
             if ta == tb == 'ext' and op == '+':
                 return ('(addG %s %s)' % (a, b), 'ext')
+            if ta == tb == 'fq' and op in ('+', '-', '*'):
+                return ('(%s q %s %s)' % ({'+': 'fadd', '-': 'fsub', '*': 'fmul'}[op], a, b), 'fq')
             if ta == tb == 'bool' and op in ('&&', '||', '=='):
                 return ('(%s %s %s)' % (a, op, b), 'bool')
             raise Untranslatable('binary %s on %s, %s in the ladder body' % (op, ta, tb))
@@ -1305,6 +1336,14 @@ class LoopSym:
             a, t = self.ev(e[1], env)
             if t == 'ext' and e[2] == 'double' and not e[3]:
                 return ('(dblG %s)' % a, 'ext')
+            if t == 'fq' and e[2] == 'ct_eq' and len(e[3]) == 1:
+                b, tb = self.ev(e[3][0], env)
+                if tb == 'fq':
+                    return ('(%s == %s)' % (a, b), 'bool')
+            if t == 'fq' and e[2] == 'pow_le_limbs' and len(e[3]) == 1:
+                b, tb = self.ev(e[3][0], env)
+                if tb == 'limbs':
+                    return ('(min_pow_le_limbs %s %s)' % (a, b), 'fq')
             if e[2] in ('clone',) and not e[3]:
                 return (a, t)
             raise Untranslatable('method .%s in the ladder body' % e[2])
@@ -1315,6 +1354,8 @@ class LoopSym:
                 return ('(if %s == 1 then %s else %s)' % (av[2][0], av[1][0], av[0][0]), 'ext')
             if f == 'Choice::from' and [t for _, t in av] == ['u64']:
                 return (av[0][0], 'choice')
+            if f in ('Fq::conditional_select', 'Self::conditional_select') and [t for _, t in av] == ['fq', 'fq', 'bool']:
+                return ('(if %s then %s else %s)' % (av[2][0], av[1][0], av[0][0]), 'fq')
             raise Untranslatable('call of %s in the ladder body' % f)
         raise Untranslatable('expression %s in the ladder body' % k)
 
@@ -1348,6 +1389,60 @@ class LoopSym:
             else:
                 raise Untranslatable('statement %s in the ladder body' % k)
         return env
+
+
+def translate_oursqrt(repo, cfg, index):
+    """`our_sqrt`: straight-line prefix, then `for i in (2..=Fq::TWO_ADICITY).rev() { for _j in 1..=i - 2 { INNER } REST }`, result `z`"""
+    src = open(os.path.join(repo, cfg['file'])).read()
+    text, l0, l1 = find_fn(src, cfg['impl'], cfg['fn'])
+    info = dict(file=cfg['file'], fn=cfg['fn'], lines=[l0, l1], sha256=hashlib.sha256(text.encode()).hexdigest())
+    t = re.sub(r'//[^\n]*', '', text).strip()
+    m = re.fullmatch(r'\{(.*?)\bfor\s+(\w+)\s+in\s+\(\s*2\s*\.\.=\s*Fq::TWO_ADICITY\s*\)\s*\.rev\(\)\s*\{\s*'
+                     r'for\s+(\w+)\s+in\s+1\s*\.\.=\s*(\w+)\s*-\s*2\s*\{([^{}]*)\}(.*)\}\s*(\w+)\s*\}', t, re.S)
+    if not m or m.group(4) != m.group(2):
+        raise Untranslatable('not the shape `prefix; for i in (2..=TWO_ADICITY).rev() { for _j in 1..=i-2 { … } … } z`')
+    prefix, ivar, _j, _, inner, rest, result = m.groups()
+    ls = LoopSym()
+    env = ls.exec(Parser(tokenize('{' + prefix + '}')).block(), {'self': ('x', 'fq')})
+    state = [n for n in env if n != 'self']
+    if len(state) != 4 or result not in state:
+        raise Untranslatable('loop state of our_sqrt: %s' % state)
+    inner_stmts = Parser(tokenize('{' + inner + '}')).block()
+    ienv = ls.exec(inner_stmts, {n: (n, 'fq') for n in state})
+    changed = [n for n in state if ienv[n][0] != n]
+    if len(changed) != 1:
+        raise Untranslatable('inner loop must update exactly one variable')
+    bvar = changed[0]
+    inner_def = ienv[bvar][0].replace(bvar, 'b') if bvar != 'b' else ienv[bvar][0]
+    renv = {n: (n, 'fq') for n in state}
+    renv[ivar] = ('i', 'u64')
+    renv[bvar] = ('bb', 'fq')
+    out = ls.exec(Parser(tokenize('{' + rest + '}')).block(), renv)
+    order = [result] + [n for n in state if n != result]
+    info['state'] = order
+    return dict(inner='  %s' % re.sub(r'\b%s\b' % bvar, 'b', ienv[bvar][0]),
+                step_params=' '.join(order), bvar=bvar,
+                step='  let bb := (List.range (i - 2)).foldl (fun b _ => min_our_sqrt_inner b) %s\n  (%s)' % (bvar, ', '.join(out[n][0] for n in order)),
+                init='(%s)' % ', '.join(env[n][0] for n in order), order=order), info
+
+
+def translate_powloop(repo, cfg, index):
+    src = open(os.path.join(repo, cfg['file'])).read()
+    text, l0, l1 = find_fn(src, cfg['impl'], cfg['fn'])
+    info = dict(file=cfg['file'], fn=cfg['fn'], lines=[l0, l1], sha256=hashlib.sha256(text.encode()).hexdigest())
+    m = re.fullmatch(r'\{\s*let\s+mut\s+(\w+)\s*=\s*Self::ONE\s*;\s*let\s+mut\s+(\w+)\s*=\s*\*self\s*;\s*'
+                     r'for\s+(\w+)\s+in\s+(\w+)\s*\{\s*for\s+(\w+)\s+in\s+0\s*\.\.\s*64\s*(\{.*\})\s*\}\s*(\w+)\s*\}',
+                     re.sub(r'//[^\n]*', '', text), re.S)
+    if not m:
+        raise Untranslatable('not the shape `acc = ONE; ins = *self; for limb in limbs { for i in 0..64 { … } } acc`')
+    acc, ins, limb, limbs, i, body, result = m.groups()
+    sig = re.search(r'fn\s+%s\s*\(\s*&self\s*,\s*(\w+)\s*:' % cfg['fn'], src)
+    if not sig or sig.group(1) != limbs or result != acc:
+        raise Untranslatable('signature / result of the power loop')
+    stmts = Parser(tokenize(body)).block()
+    env = {acc: ('acc', 'fq'), ins: ('ins', 'fq'), limb: ('limb', 'u64'), i: ('i', 'u64')}
+    out = LoopSym().exec(stmts, env)
+    return '  (%s, %s)' % (out[acc][0], out[ins][0]), info
 
 
 def translate_ladder(repo, cfg, index):
@@ -1421,6 +1516,11 @@ TARGETS = [
          fallback='elligator sr ZETA r0', lean_ret='Option Ext'),
     dict(name='ark_sqrt_ratio_zeta', file='src/ark_curve/invsqrt.rs', impl=r'impl\s+Fq\s*\{', fn='sqrt_ratio_zeta', sark=True, mode='option', ret='tuple',
          params='(num den : Nat)', env={'num': ('num', 'fq'), 'den': ('den', 'fq')}, new_order=None, fallback='sqrtRatioArk num den', lean_ret='Option (Bool × Nat)'),
+    dict(name='min_pow_le_limbs_step', file='src/min_curve/invsqrt.rs', impl=r'impl\s+Fq\s*\{', fn='pow_le_limbs', powloop=True,
+         params='(limb i : Nat) (acc ins : Nat)', lean_ret='Nat × Nat', mode='pure', ret='fq', env={}, new_order=None,
+         fallback='(if (limb / 2 ^ i) % 2 == 1 then fmul q acc ins else acc, fmul q ins ins)'),
+    dict(name='min_our_sqrt', file='src/min_curve/invsqrt.rs', impl=r'impl\s+Fq\s*\{', fn='our_sqrt', oursqrt=True,
+         params='(x : Nat)', lean_ret='Nat', mode='pure', ret='fq', env={}, new_order=None, fallback='ourSqrt x'),
     dict(name='min_sqrt_ratio_zeta', file='src/min_curve/invsqrt.rs', impl=r'impl\s+Fq\s*\{', fn='non_arkworks_sqrt_ratio_zeta', sark=True, mode='option', ret='tuple',
          params='(num den : Nat)', env={'num': ('num', 'fq'), 'den': ('den', 'fq')}, new_order=None, fallback='sqrtRatioMin num den', lean_ret='Option (Bool × Nat)'),
     dict(name='min_scalar_mul_step', file='src/min_curve/element.rs', impl=r'impl\s+Element\s*\{', fn='scalar_mul_both', ladder=True,
@@ -1521,7 +1621,19 @@ def main():
     for cfg in TARGETS:
         info = dict(file=cfg['file'], fn=cfg['fn'])
         try:
-            if cfg.get('ladder'):
+            if cfg.get('oursqrt'):
+                parts_os, info = translate_oursqrt(repo, cfg, index)
+                n = len(parts_os['order'])
+                proj = ['st.1', 'st.2.1', 'st.2.2.1', 'st.2.2.2']
+                parts.append('/-- %s `our_sqrt` lines %d-%d: body of the inner loop `for _j in 1..=i-2` -/' % (cfg['file'], info['lines'][0], info['lines'][1]))
+                parts.append('def min_our_sqrt_inner (b : Nat) : Nat :=\n%s\n' % parts_os['inner'])
+                parts.append('/-- body of the outer loop `for i in (2..=TWO_ADICITY).rev()` on the state (%s) -/' % ', '.join(parts_os['order']))
+                parts.append('def min_our_sqrt_step (i : Nat) (%s : Nat) : Nat × Nat × Nat × Nat :=\n%s\n' % (parts_os['step_params'], parts_os['step']))
+                body = ('  ((List.range\' 2 (litNat Gen.fields_fq.Fq.TWO_ADICITY - 1)).reverse.foldl (fun st i => min_our_sqrt_step i %s)\n    %s).1'
+                        % (' '.join(proj), parts_os['init']))
+            elif cfg.get('powloop'):
+                body, info = translate_powloop(repo, cfg, index)
+            elif cfg.get('ladder'):
                 body, info = translate_ladder(repo, cfg, index)
             elif cfg.get('ladder_wrapper'):
                 src = open(os.path.join(repo, cfg['file'])).read()
@@ -1546,8 +1658,10 @@ def main():
             doc += ' — UNTRANSLATED (%s): falls back to the hand model' % info['reason'].replace('-/', '- /')
         parts.append('/-- %s -/' % doc)
         parts.append('def %s %s : %s :=\n%s\n' % (cfg['name'], cfg['params'], cfg['lean_ret'], body))
-        if cfg.get('ladder'):
-            pass
+        if cfg.get('powloop'):
+            parts.append('/-- the loop skeleton of `pow_le_limbs`: `for limb in limbs { for i in 0..64 { step } }` from (ONE, *self), result `acc` -/')
+            parts.append('def min_pow_le_limbs (x : Nat) (limbs : List Nat) : Nat :=\n'
+                         '  (limbs.foldl (fun st limb => (List.range 64).foldl (fun st i => min_pow_le_limbs_step limb i st.1 st.2) st) (1, x)).1\n')
         if cfg['name'] == 'min_neg':
             parts.append('/-- the translated addition / doubling of the minimal backend on `Ext` values -/')
             parts.append('def addG (a b : Ext) : Ext := min_add a.X a.Y a.Z a.T b.X b.Y b.Z b.T')
